@@ -147,4 +147,51 @@ VARIANTS = [
     {"name": "P R5 second test as else branch", "file": SE, "expect": "silent",
      "old": "                if region.circuit and region.circuit.is_alive:\n                    # Whatever, already open\n",
      "new": "                else:\n                    # Whatever, already open\n"},
+    # ------------------------------------------------------------------ strengthening round
+    {"name": "R3 claim_session ignores the pending flag", "file": SE, "expect": "C06.R3",
+     "old": "            if session.pending and session.id == session_id:\n", "new": "            if session.id == session_id:\n"},
+    {"name": "R3 claimed session stays pending", "file": SE, "expect": "C06.R3",
+     "old": "                session.pending = False\n", "new": ""},
+    {"name": "P R3 claim_session with a guard clause", "file": SE, "expect": "silent",
+     "old": "            if session.pending and session.id == session_id:\n                logging.info(\"Claimed %r\" % session)\n"
+            "                session.pending = False\n                return session\n",
+     "new": "            if not session.pending or session.id != session_id:\n                continue\n"
+            "            logging.info(\"Claimed %r\" % session)\n            session.pending = False\n            return session\n"},
+    {"name": "R2 route forgotten on a discard path", "file": SP, "expect": "C06.R2",
+     "old": '                logging.warning("Got non-SOCKS packet from local? %r" % data)\n                return\n',
+     "new": '                logging.warning("Got non-SOCKS packet from local? %r" % data)\n'
+            '                self.far_to_near_map.clear()\n                return\n'},
+    {"name": "P R2 learning store extracted into a helper", "expect": "silent", "edits": [
+        {"file": SP, "old": "                self.far_to_near_map[remote_addr] = source_addr\n",
+         "new": "                self._learn_route(remote_addr, source_addr)\n"},
+        {"file": SP, "old": "    def datagram_received(self, data, source_addr):\n",
+         "new": "    def _learn_route(self, far_addr, viewer_addr):\n        self.far_to_near_map[far_addr] = viewer_addr\n\n"
+                "    def datagram_received(self, data, source_addr):\n"}]},
+    {"name": "R2 helper learns the route the wrong way round", "expect": "C06.R2", "edits": [
+        {"file": SP, "old": "                self.far_to_near_map[remote_addr] = source_addr\n",
+         "new": "                self._learn_route(source_addr, remote_addr)\n"},
+        {"file": SP, "old": "    def datagram_received(self, data, source_addr):\n",
+         "new": "    def _learn_route(self, far_addr, viewer_addr):\n        self.far_to_near_map[far_addr] = viewer_addr\n\n"
+                "    def datagram_received(self, data, source_addr):\n"}]},
+    {"name": "R2 register_region re-points an existing region", "file": ST, "expect": "C06.R2",
+     "old": '            if seed_url and region.cap_urls.get("Seed") == seed_url:\n                return region\n',
+     "new": '            if seed_url and region.cap_urls.get("Seed") == seed_url:\n                if circuit_addr:\n'
+            '                    region.circuit_addr = circuit_addr\n                return region\n'},
+    {"name": "P R2 register_region comparison mirrored", "file": ST, "expect": "silent",
+     "old": "            if region.circuit_addr == circuit_addr:\n                if seed_url and",
+     "new": "            if circuit_addr == region.circuit_addr:\n                if seed_url and"},
+    {"name": "P R2 datagram_received flattened into guard clauses", "file": SP, "expect": "silent",
+     "old": "            if not near_addr:\n                logging.warning(\"Got datagram from unknown host %s:%s\" % source_addr)\n"
+            "                return\n",
+     "new": "            if near_addr is None:\n                logging.warning(\"Got datagram from unknown host %s:%s\" % source_addr)\n"
+            "                return\n"},
+    {"name": "P R3 session claim split into a helper", "expect": "silent", "edits": [
+        {"file": LP, "old": "                session_id = message[\"CircuitCode\"][0][\"SessionID\"]\n"
+                            "                self.session = self.session_manager.claim_session(session_id)\n",
+         "new": "                self._claim(message)\n"},
+        {"file": LP, "old": "                    LOG.error(f\"Wasn't able to claim session {session_id!r}! Generally",
+         "new": "                    LOG.error(f\"Wasn't able to claim session {message.name!r}! Generally"},
+        {"file": LP, "old": "    def handle_proxied_packet(self, packet: UDPPacket):\n",
+         "new": "    def _claim(self, msg):\n        self.session = self.session_manager.claim_session(msg[\"CircuitCode\"][0][\"SessionID\"])\n\n"
+                "    def handle_proxied_packet(self, packet: UDPPacket):\n"}]},
 ]
